@@ -9,7 +9,7 @@ checks, na = [], []
 for p in props:
     pid = p["id"]
     m = META.get(pid, {})
-    if pid in have and m.get("claimed", True):
+    if pid in have and pid in META and m.get("claimed", True):
         checks.append({
             "property_id": pid,
             "quick_cmd": f"./check {pid} --tier quick",
